@@ -8,7 +8,8 @@ ID = "C16"
 LEAN_MODULES = ["Properties.C16"]
 THEOREMS = ["EngineModel.Properties.C16." + t for t in [
     "C16_observers_pure", "C16_observer_answer", "C16_observers_pure_any_plan", "C16_repeat", "C16_frame",
-    "C16_no_write_no_change"]]
+    "C16_no_write_no_change", "C16_api_observer", "C16_api_history", "C16_api_answers", "C16_crates_v1", "C16_crates_v2",
+    "C16_tracks_v2"]]
 ASSUMPTIONS = [
     "SqliteSemantics (modelled, Spec/Txn.lean): a statement SQLite classifies read-only (sqlite3_stmt_readonly) leaves "
     "the connection state as it was.  Checked on every monitored application against sqlite3_total_changes, the raw "
@@ -26,7 +27,11 @@ MANIFEST = dict(
          "operations (statement sequences on the modelled SQLite connection), an operation classified as observer — "
          "every statement it steps is read-only — is the identity on the connection state by proof, answers from the "
          "unchanged database, and any sequence of observers can be repeated / inserted / dropped without effect; "
-         "C16_no_write_no_change extends this to calls that open scopes but never write, under every fault plan. Tied to the code by applying "
+         "C16_no_write_no_change extends this to calls that open scopes but never write, under every fault plan; "
+         "C16_api_history / C16_api_answers (instances C16_crates_v1, C16_crates_v2, C16_tracks_v2) put the accessors of "
+         "the concrete API models (1.x crates, 2.x crates, 2.x tracks) into that alphabet: interleaved anywhere in a "
+         "history of the model's mutating calls they leave the state the mutating calls alone produce and answer from "
+         "it. Tied to the code by applying "
          "every read-only operation of database, crate, track, the engine entry points (database_exists, load_database, "
          "create_or_load_database on an existing library) and the 2.x table API twice on every visited state of "
          "generated histories on on-disk libraries: the observed statement-kind sequence of each application is decided "
@@ -36,13 +41,20 @@ MANIFEST = dict(
     note="Trusted/limits: the classification of a real statement as read-only is SQLite's sqlite3_stmt_readonly (checked "
          "against change counter, raw dump and file hash on every application, not proved); states are sampled "
          "(generated histories, every prefix), the for-all over states is proved for the model only; table-API states "
-         "are those reachable through the public API plus table-API setter perturbations.",
+         "are those reachable through the public API plus table-API setter perturbations (tableapi.touch).",
     technique="Lean 4 theorems over an operation/connection model + run-time monitors on the real library (link-time "
               "sqlite3_step wrapper, total_changes, raw dumps through the C API, SHA-256 of the files)",
     ref="6/C16")
 TRUSTED_EXTRA = ["harness/djv_wrap.cpp (sqlite3_step wrapper: statement kinds), harness/djv_monitors.cpp (observer "
                  "list, change counters, raw dumps, SHA-256), tools/monitors_gen.py (history generator)"]
 STATELESS = False
+SELF_TEST = {"recorded": "2026-09-29, scratch worktree of /repo, quick tier seed 1 (not re-run by the check)", "seeded_changes": {
+    "seeded/sv-C16-getter-cache (2.x filename() rewrites the filename column)": "caught: track.filename, sqlite3_total_changes grew",
+    "seeded/sv-C16-load-stamp (load_database increments a counter in Information)": "caught: engine.database_exists / load_database / create_or_load, SHA-256 of the files changed",
+    "seeded/sv-C16-verify-analyze (verify() runs ANALYZE; also killed by the unit-test suite)": "caught: db.verify, raw dump differs",
+    "seeded/sv-C16-exists-creates (database_exists through create_or_load_database)": "caught: engine.database_exists(no directory), a library appeared",
+    "seeded/sv-refactor-getter-in-scope (behaviour preserving)": "green (no-write, closed shape)",
+    "seeded/sv-refactor-reorder-writes (behaviour preserving)": "green"}}
 
 LETTER = {"r": "read", "w": "write", "b": "begin", "c": "commit", "k": "rollback"}
 
@@ -282,20 +294,50 @@ def attribute(schema, hist_lines, state, group, tag):
     return culprits
 
 
+def run_corpus(ctx):
+    """corpus/C16/*.txt: scripts that once showed a violation on a seeded change of /repo (kept as regression inputs):
+    each is replayed first and must satisfy the oracle on the current tree."""
+    d = os.path.join(VERIF, "corpus", ID)
+    res, viol = {}, []
+    if not os.path.isdir(d):
+        return res, viol
+    for f in sorted(x for x in os.listdir(d) if x.endswith(".txt")):
+        txt = open(os.path.join(d, f)).read()
+        head, body = txt.split("----\n", 1)
+        hdr = dict(l.split(": ", 1) for l in head.split("\n") if ": " in l)
+        lines = [l for l in body.split("\n") if l.strip()]
+        ok, text = replay(ctx, hdr, lines)
+        res[f] = "clean" if ok else "violated"
+        if not ok:
+            probs = [l for l in text.split("\n") if l.startswith("PROBLEM")]
+            viol.append({"tag": "corpus", "signature": {"family": "corpus", "op": f, "effect": "violated"},
+                         "header": {"kind": "script", "what": "corpus witness %s: %s" % (f, "; ".join(probs)[:300])},
+                         "body": [l for l in lines if not l.startswith("# ")]})
+    return res, viol
+
+
 def tie(ctx):
     rng = random.Random(ctx.seed * 1000003 + 16)
     thorough = ctx.tier == "thorough"
     schemas = G.pick_schemas(ctx.tier, ctx.seed)
     n_hist = 2
-    lengths = [22, 30] if thorough else [16, 22]
+    lengths = [70, 36] if thorough else [62, 22]    # history 0: seed + enrich + sweep (every mutating operation) + random
     cases = []
     for sch in schemas:
         for hi in range(n_hist):
-            h = G.gen_history(rng, sch, lengths[hi % len(lengths)])
-            cases.append({"schema": sch, "hist": list(h.lines), "ops": dict(h.ops_used)})
+            h = G.gen_history(rng, sch, lengths[hi % len(lengths)], enrich="early" if hi % 2 == 0 else False, sweep=hi % 2 == 0)
+            lines = list(h.lines)
+            if G.family(sch) == "v2":
+                # rows the high-level API never produces: table-API setters on every track, twice along the history
+                for pos, n in ((len(lines) * 2 // 3, rng.randrange(1000)), (len(lines) // 3, rng.randrange(1000))):
+                    lines.insert(pos, "tableapi.touch %d" % n)
+                h.ops_used["table-API setters (tableapi.touch)"] = 2
+            cases.append({"schema": sch, "hist": lines, "ops": dict(h.ops_used)})
     scripts = [build_script(c["schema"], c["hist"]) for c in cases]
     outs = runner.run_harness(scripts, watchdog=60)
     violations, divergences = [], []
+    corpus_res, corpus_viol = run_corpus(ctx)
+    violations += corpus_viol
     shape_use = {}      # shape -> set of (family, observer)
     obs_apps, obs_shapes = {}, {}
     seen_core, seen_table, seen_static = set(), set(), set()
@@ -404,6 +446,24 @@ def tie(ctx):
         if key in obs_shapes and key not in nonobs and name not in ("observers", "staticops", "tableapi.reads"):
             divergences.append({"input": key, "impl": "modification observed", "model": "every observed shape is read-only: "
                                 "C16_observers_pure says unchanged (SQLite's read-only classification is wrong, or a write bypasses sqlite3_step)"})
+    # ---- database_exists where there is nothing to load (no directory, empty directory, both layouts present):
+    # it must answer, twice the same, and leave the directory as it is (in particular create nothing)
+    nolib = []
+    for pres in ("N0", "N", "LD"):
+        s1, s2 = rng.choice(G.SCHEMAS_V1), rng.choice(G.SCHEMAS_V2)
+        nolib.append((pres, ["c10.dir %s %s %s" % (pres, s1, s2), "dirsha", "exists", "exists", "dirsha"]))
+    for (pres, sc), (o, _) in zip(nolib, runner.run_harness([x[1] for x in nolib])):
+        evaluations += 1
+        name = "engine.database_exists(%s)" % {"N0": "no directory", "N": "empty directory", "LD": "both layouts"}[pres]
+        seen_static.add(name)
+        if any(not x.startswith("ok") for x in o):
+            divergences.append({"input": " | ".join(sc), "impl": " | ".join(x[:40] for x in o), "model": "monitor commands answer"})
+        elif o[1] != o[4]:
+            violations.append(mk_violation(sc[0].split(" ")[3], sc, "modified", name,
+                                           "the directory content changed while database_exists was applied (%s -> %s)" % (
+                                               o[1].split(" ", 2)[2], o[4].split(" ", 2)[2]), 0))
+        elif o[2] != o[3]:
+            violations.append(mk_violation(sc[0].split(" ")[3], sc, "answers-differ", name, "database_exists answered %s then %s" % (o[2], o[3]), 0))
     missing = check_completeness(seen_core, seen_table, seen_static)
     for m in missing:
         divergences.append({"input": "observer list vs public headers", "impl": m, "model": "every public member function is classified and every observer exercised"})
@@ -425,7 +485,7 @@ def tie(ctx):
                 "non-trivial = the state holds at least one crate or track",
         "samples": [sc[:2] + ["..."] + sc[-8:] for sc in scripts[:2]],
         "histograms": {
-            "schemas": schemas, "histories": len(cases), "history_crashed": crashed, "history_ops_rejected(states after a throwing call are visited too)": rejected, "states_visited": states_visited,
+            "schemas": schemas, "histories": len(cases), "corpus": corpus_res, "history_crashed": crashed, "history_ops_rejected(states after a throwing call are visited too)": rejected, "states_visited": states_visited,
             "state_sizes(crates+tracks)": {str(k): v for k, v in sorted(state_sizes.items(), key=lambda kv: str(kv[0]))},
             "history_operations": hist_ops,
             "observers_core": sorted(seen_core), "observers_static": sorted(seen_static), "observers_table_api": len(seen_table),
@@ -437,6 +497,7 @@ def tie(ctx):
         },
         "divergences": divergences[:20],
         "violations": vout,
+        "self_test": SELF_TEST,
     }
 
 
@@ -446,6 +507,10 @@ def replay(ctx, hdr, body):
     text, ok = [], True
     for l, o in zip(script, outs):
         text.append("%s\n   -> %s" % (l[:160], o[:400]))
+    if script and script[0].startswith("c10.dir") and len(outs) >= 5:
+        if outs[1] != outs[4] or outs[2] != outs[3]:
+            ok = False
+            text.append("PROBLEM: directory %s -> %s, answers %s / %s" % (outs[1][:30], outs[4][:30], outs[2], outs[3]))
     for st, ls, os_ in split_states(script, outs):
         problems, _ = judge_state(ls, os_)
         for tag, who, t in problems:
